@@ -18,6 +18,12 @@ Init ==
            pick = [kind |-> "upsample3d", c |-> 1, h |-> h, w |-> w, H |-> H, W |-> W, sh |-> sh, sw |-> sw, seed |-> 1]
      \/ \E c \in 1..2, h \in 1..4, w \in 1..4, nc \in 1..2, nh \in 1..4, nw \in 1..4 :
            nc <= c /\ nh <= h /\ nw <= w /\ pick = [kind |-> "resize", c |-> c, h |-> h, w |-> w, nc |-> nc, nh |-> nh, nw |-> nw, seed |-> 2]
+     \/ \E c \in 1..2, h \in 1..MaxDim, w \in 1..MaxDim, seed \in Seeds, from \in {"vector", "tensor"} :
+           pick = [kind |-> "get_triple", c |-> c, h |-> h, w |-> w, seed |-> seed, from |-> from]
+     \/ \E f \in 1..3, c \in 1..2, h \in 1..2, w \in 1..MaxDim, seed \in Seeds :
+           pick = [kind |-> "split_quad", f |-> f, c |-> c, h |-> h, w |-> w, seed |-> seed]
+     \/ \E c \in 1..2, h \in 1..MaxDim, w \in 1..MaxDim, k \in 0..2, seed \in Seeds :
+           pick = [kind |-> "hadamard3d", c |-> c, h |-> h, w |-> w, k |-> k, seed |-> seed]
      \/ \E n \in {1, 2, 7, 16, 33}, rate \in {<<1, 1>>, <<1, 2>>, <<3, 2>>, <<1, 3>>, <<7, 3>>} :
            pick = [kind |-> "dropout", n |-> n, a |-> rate[1], k |-> rate[2]]
 
@@ -33,6 +39,16 @@ Compute ==
                    pick @@ [x |-> T(1, pick.h, pick.w, 1), result |-> Upsample3d(T(1, pick.h, pick.w, 1), pick.H, pick.W, pick.sh, pick.sw)]
               [] pick.kind = "resize" ->
                    pick @@ [x |-> T(pick.c, pick.h, pick.w, 2), result |-> Resize(T(pick.c, pick.h, pick.w, 2), pick.nc, pick.nh, pick.nw)]
+              [] pick.kind = "get_triple" ->
+                   LET v == [i \in 1..(pick.c * pick.h * pick.w) |-> Val(pick.seed, i)]
+                       sh == <<pick.c, pick.h, pick.w>>
+                       t == IF pick.from = "vector" THEN [shape |-> <<Len(v)>>, data |-> v] ELSE [shape |-> sh, data |-> Unflat3(v, pick.c, pick.h, pick.w)] IN
+                   pick @@ [x |-> t.data, result |-> GetTriple(t, sh)]
+              [] pick.kind = "split_quad" ->
+                   LET q == [f \in 1..pick.f |-> T(pick.c, pick.h, pick.w, pick.seed + f)] IN pick @@ [x |-> q, result |-> SplitQuad(q)]
+              [] pick.kind = "hadamard3d" ->
+                   LET a == T(pick.c, pick.h, pick.w, pick.seed) b == T(pick.c, pick.h, pick.w, pick.seed + 5) IN
+                   pick @@ [x |-> a, y |-> b, result |-> Hadamard3d(a, b, pick.k)]
               [] pick.kind = "dropout" -> pick @@ [mask |-> DropoutMask(pick.n, pick.a, pick.k)]
 Next == Compute
 Spec == Init /\ [][Next]_vars
@@ -41,5 +57,8 @@ Spec == Init /\ [][Next]_vars
 PadKeepsSum ==
   (rec # <<>> /\ rec.kind = "pad3d" /\ rec.H >= rec.h /\ rec.W >= rec.w) =>
      SumSeq(Flat3(rec.result)) = SumSeq(Flat3(rec.x))
+\* regrouping is the row-major identity
+RegroupIsRowMajor ==
+  (rec # <<>> /\ rec.kind = "get_triple") => Flat3(rec.result) = [i \in 1..(rec.c * rec.h * rec.w) |-> Val(rec.seed, i)]
 Emit == rec = <<>> \/ PrintT("REPLAY " \o ToJson([group |-> "tutil"] @@ rec))
 =============================================================================
